@@ -30,7 +30,9 @@ ASSUMPTIONS = ["'' as a format id is excluded (not a documented value)",
 BADARG = {"ValueError", "TypeError", "UnsupportedAlgorithm"}
 UNKNOWN = {"PidRefsDoesNotExist"}
 
-BAD_ID = [None, "", " ", "a b", "a\tb", "a\n", " x", "x y"]
+BAD_ID = [None, "", " ", "a b", "a\tb", "a\n", "\u2003x", "x\u00a0y",
+          # more white space beyond the ASCII blank / tab / newline (characters with the Unicode White_Space property)
+          "a\rb", "a\x0bb", "a\x0cb", "a\x85b", "\u2028x", "a\u3000"]
 BAD_ALGO = ["sha999", "", " ", "sha 256", "md4", "SM3", "sha3256"]
 BAD_SIZE = [0, -1, "5", 5.0, -10**9]
 BAD_FMT = ["  ", "\t", "\n"]
